@@ -1230,3 +1230,267 @@ Proof.
   destruct (peer_segs_Q sg [] HP ltac:(constructor) pre ge gm b post E) as (G0 & G1 & G2).
   cbn [enc_rcds flat_map app] in G1, G2. split; [exact G0|right]. cbn [app]. split; [exact G1|]. rewrite counts_nil. cbn [snd]. lia.
 Qed.
+
+(* ------------------------------------------------------------------------------------------ *)
+(* Part F: the layers of the connection task                                                    *)
+(* ------------------------------------------------------------------------------------------ *)
+Section Layers.
+Variable maxc : N.
+
+Definition SQ (a : ast) (log new : bytes) (sg : list (N * N * bytes)) : Prop :=
+  Q (kst (a_st a)) (a_prem a) (a_pad a) (a_raw a) (a_out a) log new sg.
+Definition inv2 (r : rstate) (w : world) (new : bytes) : Prop := SQ (abs (rsp r)) (wlog w) new (segs w).
+(* between the operations of a handler the log and the pending output are sequences of complete records *)
+Definition wl (r : rstate) (w : world) : Prop := wholeF (wlog w) /\ wholeF (output_buffer (rsp r)).
+Definition ready {A} (p : Conn.pres A) : Prop := match p with PReady _ => True | _ => False end.
+
+Lemma sparse_walk p new dest : pinv p -> bytes_ok new ->
+  match sparse maxc p new dest with
+  | StOk p' _ | StErr p' _ _ =>
+      exists o, output_buffer p' = output_buffer p ++ o /\ whole o /\
+                forall u, W (abs p) (new ++ u) = padd (snd (counts o)) (W (abs p') u)
+  | StPanic _ => True
+  end.
+Proof.
+  intros [HRI Hinv] Hn. destruct (sparse_refines maxc p new dest HRI) as [Ga _].
+  assert (Hb : bytes_ok (a_raw (abs p))) by (destruct Hinv as (_ & _ & _ & Hb & _); exact Hb).
+  destruct (sparse maxc p new dest) as [p' s|p' e s|n]; cbn [absres] in Ga; [| |exact I].
+  - destruct (walk_law maxc (abs p) new dest (abs p') s Hb Hn (or_introl Ga)) as (_ & H). exact H.
+  - destruct (walk_law maxc (abs p) new dest (abs p') s Hb Hn (or_intror (ex_intro _ e Ga))) as (_ & H). exact H.
+Qed.
+
+Lemma SQ_sparse p new p' o log sg : output_buffer p' = output_buffer p ++ o -> whole o ->
+  (forall u, W (abs p) (new ++ u) = padd (snd (counts o)) (W (abs p') u)) ->
+  SQ (abs p) log new sg -> SQ (abs p') log [] sg.
+Proof.
+  intros Eo Ho L H. unfold SQ in *. change (a_out (abs p')) with (output_buffer p'). rewrite Eo.
+  apply (Q_parse (kst (a_st (abs p))) (a_prem (abs p)) (a_pad (abs p)) (a_raw (abs p)) (output_buffer p) log new sg
+           (kst (a_st (abs p'))) (a_prem (abs p')) (a_pad (abs p')) (a_raw (abs p')) o Ho); [|exact H]. intros u. apply (L u).
+Qed.
+
+Lemma sparse_stuck p new dest p' s : pinv p -> bytes_ok new -> len new <= sinput_space p ->
+  (dest <> None -> stream_buffer p = []) -> dest <> Some 0 ->
+  sparse maxc p new dest = StOk p' s -> s_end s = false -> s_stream s = 0 -> stuck (abs p').
+Proof.
+  intros [HRI Hinv] Hb Hl Hd Hd0 E Hend Hstr.
+  assert (Hleg : legal (abs p) new dest) by (split; [exact Hb|split; [exact Hl|exact Hd]]).
+  destruct (sparse_refines maxc p new dest HRI) as [Ga _]. rewrite E in Ga. cbn [absres] in Ga.
+  apply (aparse_stuck maxc (abs p) new dest (abs p') s Hinv Hleg Hd0 Ga Hend Hstr).
+Qed.
+
+(* what one poll_read does to the invariant *)
+Lemma read_inv a log w0 L pr w1 : t_poll_read L w0 = (pr, w1) -> wlog w0 = log ->
+  SQ a log [] (segs w0) ->
+  match pr with
+  | PReady (inl b) => SQ a log b (segs w1)
+  | PBlock => a_out a = [] -> fst (W a []) = 0 -> False
+  | _ => SQ a log [] (segs w1)
+  end.
+Proof.
+  intros ER El HI. pose proof (t_poll_read_segs _ _ _ _ ER) as S2. rewrite El in S2.
+  destruct pr as [[b|k]| |]; cbv beta iota in S2.
+  - destruct S2 as [(-> & E0 & HF & HS)|(E0 & ge & gm & bb & rest & n & HF & HS & Hbb & Hb & HS' & Hm)].
+    + rewrite HS in HI. apply (Q_skip _ _ _ _ _ _ _ E0 _ HF HI).
+    + rewrite HS in HI. rewrite HS', Hb. apply (Q_read _ _ _ _ _ _ E0); [exact HF|exact Hbb|apply Hm|exact HI].
+  - destruct S2 as (E0 & HF & HS). rewrite HS in HI. apply (Q_skip _ _ _ _ _ _ _ E0 _ HF HI).
+  - destruct S2 as (E0 & HF & HS). rewrite HS in HI. apply (Q_skip _ _ _ _ _ _ _ E0 _ HF HI).
+  - intros Ho H0. destruct S2 as (E0 & ge & gm & bb & rest & HF & HS & Hbb & Hn). apply Hn.
+    rewrite HS in HI. unfold SQ in HI. rewrite Ho in HI. unfold W in H0. rewrite app_nil_r in H0.
+    apply (Q_block _ _ _ _ _ E0 ge gm bb rest HF Hbb H0 HI).
+Qed.
+
+Lemma input_loop_nd : forall fuel dest new r w p r' w',
+  pinv (rsp r) -> bytes_ok (remaining w) -> bytes_ok new -> len new <= sinput_space (rsp r) ->
+  stream_buffer (rsp r) = [] -> dest <> Some 0 -> no_fault (wscript w) ->
+  (length (wscript w) + length (remaining w) + 2 <= fuel)%nat ->
+  input_loop maxc fuel dest new r w = (p, r', w') ->
+  inv2 r w new -> wl r w ->
+  p <> PBlock /\ inv2 r' w' [] /\ (ready p -> wl r' w').
+Proof.
+  induction fuel as [|f IH]; intros dest new r w p r' w' Hinv Hrem Hnew Hfit Hsb Hd0 Hnf Hf E HI HWL; [lia|].
+  cbn [input_loop] in E.
+  pose proof (sparse_step maxc (rsp r) new dest Hinv Hnew Hfit ltac:(intros _; exact Hsb)) as SS.
+  pose proof (sparse_walk (rsp r) new dest Hinv Hnew) as SW.
+  destruct (sparse maxc (rsp r) new dest) as [p1 s|p1 e s|n] eqn:ESP; [| |contradiction].
+  2:{ injection E as <- <- <-. destruct SW as (o & Eo & Ho & L). split; [discriminate|]. split.
+      - unfold inv2. cbn [rsp]. apply (SQ_sparse (rsp r) new p1 o _ _ Eo Ho L HI).
+      - intros _. destruct HWL as [H1 H2]. split; [exact H1|]. cbn [rsp]. rewrite Eo.
+        apply wholeF_app; [exact H2|apply whole_F, Ho]. }
+  destruct SS as (SO & Hend). destruct SW as (o & Eo & Ho & L).
+  assert (I1 : SQ (abs p1) (wlog w) [] (segs w)) by (apply (SQ_sparse (rsp r) new p1 o _ _ Eo Ho L HI)).
+  assert (WL1 : wholeF (output_buffer p1)).
+  { rewrite Eo. apply wholeF_app; [apply HWL|apply whole_F, Ho]. }
+  destruct (s_end s || (0 <? s_stream s)) eqn:Edone.
+  { match type of E with (_, (if ?c then _ else _), _) = _ => destruct c end; injection E as <- <- <-;
+      (split; [discriminate|]; split; [exact I1|]; intros _; split; [apply HWL|exact WL1]). }
+  apply orb_false_iff in Edone. destruct Edone as [Eend Estr].
+  assert (Hz : s_stream s = 0) by (destruct (N.ltb_spec 0 (s_stream s)); [discriminate|lia]).
+  assert (Hsb1 : stream_buffer p1 = []).
+  { destruct dest as [c|].
+    - destruct (so_some _ _ _ _ _ _ SO c eq_refl) as (A & _). exact A.
+    - destruct (so_none _ _ _ _ _ _ SO eq_refl) as (_ & d & B & C). rewrite B, Hsb.
+      assert (d = []) by (apply len_zero_nil; lia). subst d. reflexivity. }
+  pose proof (so_inv _ _ _ _ _ _ SO) as [RI1 A1].
+  destruct (compress_views p1 RI1) as (V1 & V2 & V3 & V4 & V5 & V6).
+  pose proof (compress_abs p1 RI1) as CA.
+  pose proof (sparse_stuck (rsp r) new dest p1 s Hinv Hnew Hfit ltac:(intros _; exact Hsb) Hd0 ESP Eend Hz) as ST.
+  set (r2 := mkR (compress p1) (rwriteable r) (rlock r) (raborted r)) in E.
+  assert (Hinv2 : pinv (rsp r2)).
+  { split; [exact V1|]. cbn [r2 rsp]. rewrite CA. apply compress_inv. exact A1. }
+  destruct (poll_output (S f) r2 w) as [[po r3] w0] eqn:EPO.
+  destruct (poll_output_abs _ _ _ _ _ _ EPO Hinv2 ltac:(lia))
+    as (fl & P1 & P2 & P3 & P4 & P5 & P6 & P7 & P8 & P9 & P10 & P11 & P12).
+  cbn [r2 rsp rwriteable] in P4, P5, P6, P7, P8, P9, P11.
+  pose proof (same_but_io_remaining _ _ P2) as Prem.
+  assert (Psegs : segs w0 = segs w) by apply P2.
+  assert (I3 : SQ (abs (rsp r3)) (wlog w0) [] (segs w0)).
+  { rewrite P5, P1, Psegs, CA. unfold SQ in *. cbn [set_out acompress a_st a_prem a_pad a_raw a_out].
+    apply (Q_flush _ _ _ _ (a_out (abs p1)) _ _ _ fl); [|exact I1].
+    change (a_out (abs p1)) with (output_buffer p1). rewrite <- V4. exact P4. }
+  assert (ST3 : stuck (abs (rsp r3))).
+  { rewrite P5, CA. exact ST. }
+  assert (Hnf0 : no_fault (wscript w0)) by (apply (no_fault_suffix _ _ P3 Hnf)).
+  destruct po as [[u|k]| |].
+  - assert (Hlog0 : wholeF (wlog w0)).
+    { pose proof (Q_world _ _ _ _ _ _ _ _ I3) as H. change (a_out (abs (rsp r3))) with (output_buffer (rsp r3)) in H.
+      rewrite P12, app_nil_r in H. exact H. }
+    assert (WL3 : forall w1, wlog w1 = wlog w0 -> wl r3 w1).
+    { intros w1 Q1. split; [rewrite Q1; exact Hlog0|rewrite P12; apply wholeF_nil]. }
+    destruct (t_poll_read (sinput_space (rsp r3)) w0) as [pr w1] eqn:ER.
+    destruct (t_poll_read_rem _ _ _ _ ER) as (T1 & T2 & T3 & T4).
+    pose proof (read_inv (abs (rsp r3)) (wlog w0) w0 _ pr w1 ER eq_refl I3) as RI3.
+    destruct pr as [[b|k]| |].
+    + destruct T4 as (Tr & Tl & Tnil). destruct b as [|x b'].
+      * injection E as <- <- <-. split; [discriminate|]. split; [unfold inv2; rewrite T1; exact RI3|].
+        intros _. apply WL3, T1.
+      * assert (Hb : bytes_ok (x :: b' ++ remaining w1)) by (rewrite <- Prem, Tr in Hrem; exact Hrem).
+        change (x :: b' ++ remaining w1) with ((x :: b') ++ remaining w1) in Hb. apply bytes_ok_app in Hb.
+        assert (Hf' : (length (wscript w1) + length (remaining w1) + 2 <= f)%nat).
+        { rewrite T2. pose proof (suffix_length _ _ P3). rewrite <- Prem, Tr in Hf.
+          cbn [app length] in Hf. rewrite app_length in Hf. lia. }
+        apply (IH dest (x :: b') r3 w1 p r' w' P10 (proj2 Hb) (proj1 Hb) Tl ltac:(rewrite P6, V2; exact Hsb1) Hd0
+                  ltac:(rewrite T2; exact Hnf0) Hf' E); [unfold inv2; rewrite T1; exact RI3|apply WL3, T1].
+    + injection E as <- <- <-. split; [discriminate|]. split; [unfold inv2; rewrite T1; exact RI3|]. intros _. apply WL3, T1.
+    + injection E as <- <- <-. split; [discriminate|]. split; [unfold inv2; rewrite T1; exact RI3|]. intros H; destruct H.
+    + exfalso. apply RI3; [exact P12|apply (stuck_W _ ST3)].
+  - exfalso. apply (no_fault_not_fault _ _ Hnf P12).
+  - injection E as <- <- <-. split; [discriminate|]. split; [exact I3|]. intros H; destruct H.
+  - contradiction.
+Qed.
+
+Lemma flush_inv r w fl r1 w1 : wlog w1 = wlog w ++ fl -> segs w1 = segs w ->
+  output_buffer (rsp r) = fl ++ output_buffer (rsp r1) ->
+  abs (rsp r1) = set_out (abs (rsp r)) (output_buffer (rsp r1)) ->
+  forall new, inv2 r w new -> inv2 r1 w1 new.
+Proof.
+  intros P1 Psegs P4 P5 new HI. unfold inv2, SQ in *. rewrite P5, P1, Psegs.
+  cbn [set_out a_st a_prem a_pad a_raw a_out].
+  apply (Q_flush _ _ _ _ (a_out (abs (rsp r))) _ _ _ fl); [exact P4|exact HI].
+Qed.
+
+Lemma poll_input_nd fuel dest r w p r' w' :
+  pinv (rsp r) -> bytes_ok (remaining w) -> no_fault (wscript w) ->
+  (length (wscript w) + length (remaining w) + 2 <= fuel)%nat ->
+  poll_input maxc fuel dest r w = (p, r', w') ->
+  inv2 r w [] -> (wl r w \/ poll_parses dest r = true) ->
+  p <> PBlock /\ inv2 r' w' [] /\ (ready p -> wl r' w').
+Proof.
+  intros Hinv Hrem Hnf Hf E HI HD.
+  assert (EMPTY : stream_buffer (rsp r) = [] -> dest <> Some 0 ->
+    (match poll_output fuel r w with
+     | (PReady (inl _), r1, w1) => input_loop maxc fuel dest [] r1 w1
+     | (PReady (inr k), r1, w1) => (PReady (inr k), r1, w1)
+     | (PWake, r1, w1) => (PWake, r1, w1)
+     | (PBlock, r1, w1) => (PBlock, r1, w1)
+     end) = (p, r', w') ->
+    p <> PBlock /\ inv2 r' w' [] /\ (ready p -> wl r' w')).
+  { intros Esb Hd0 E1.
+    destruct (poll_output fuel r w) as [[po r1] w1] eqn:EPO.
+    destruct (poll_output_abs _ _ _ _ _ _ EPO Hinv ltac:(lia))
+      as (fl & P1 & P2 & P3 & P4 & P5 & P6 & P7 & P8 & P9 & P10 & P11 & P12).
+    pose proof (same_but_io_remaining _ _ P2) as Prem.
+    assert (Psegs : segs w1 = segs w) by apply P2.
+    pose proof (flush_inv r w fl r1 w1 P1 Psegs P4 P5 [] HI) as I1.
+    destruct po as [[u|k]| |].
+    - pose proof (suffix_length _ _ P3) as Hsl.
+      assert (WL1 : wl r1 w1).
+      { pose proof (Q_world _ _ _ _ _ _ _ _ I1) as H. change (a_out (abs (rsp r1))) with (output_buffer (rsp r1)) in H.
+        rewrite P12, app_nil_r in H. split; [exact H|rewrite P12; apply wholeF_nil]. }
+      apply (input_loop_nd fuel dest [] r1 w1 p r' w' P10 ltac:(rewrite Prem; exact Hrem) ltac:(constructor)
+               ltac:(rewrite len_nil; lia) ltac:(rewrite P6; exact Esb) Hd0 (no_fault_suffix _ _ P3 Hnf)
+               ltac:(rewrite Prem; lia) E1 I1 WL1).
+    - exfalso. apply (no_fault_not_fault _ _ Hnf P12).
+    - injection E1 as <- <- <-. split; [discriminate|]. split; [exact I1|]. intros H; destruct H.
+    - contradiction. }
+  assert (SAME : poll_parses dest r = false -> PReady (inl (0, @nil N)) <> @PBlock (N * bytes + N) /\ inv2 r w [] /\
+                 (ready (PReady (@inl (N * bytes) N (0, @nil N))) -> wl r w)).
+  { intros Hpp. split; [discriminate|]. split; [exact HI|]. intros _. destruct HD as [H|H]; [exact H|]. rewrite Hpp in H. discriminate H. }
+  destruct dest as [[|pc]|].
+  - rewrite poll_input_zero in E. injection E as <- <- <-. apply SAME. reflexivity.
+  - unfold poll_input in E. cbv zeta in E. destruct (stream_buffer (rsp r)) as [|x sb] eqn:Esb.
+    + apply EMPTY; [reflexivity|discriminate|exact E].
+    + cbv beta iota in E. injection E as <- <- <-.
+      set (n := N.min (N.pos pc) (len (x :: sb))).
+      destruct Hinv as [HRI HI0].
+      pose proof (consume_stream_abs (rsp r) n HRI) as CA.
+      assert (Hpp : poll_parses (Some (N.pos pc)) r = false) by (unfold poll_parses; rewrite Esb; reflexivity).
+      split; [discriminate|]. split.
+      * unfold inv2, SQ in *. cbn [rsp]. rewrite CA. cbn [aconsume_stream a_st a_prem a_pad a_raw a_out]. exact HI.
+      * intros _. destruct HD as [[H1 H2]|H]; [|rewrite Hpp in H; discriminate H]. split; [exact H1|]. cbn [rsp].
+        pose proof (f_equal a_out CA) as Eo. cbn [abs aconsume_stream a_out] in Eo. rewrite Eo. exact H2.
+  - unfold poll_input in E. cbv zeta in E. destruct (stream_buffer (rsp r)) as [|x sb] eqn:Esb.
+    + apply EMPTY; [reflexivity|discriminate|exact E].
+    + cbv beta iota in E. injection E as <- <- <-. apply SAME. unfold poll_parses. rewrite Esb. reflexivity.
+Qed.
+
+(* poll_fn(|cx| poll_input(cx, dest)).await never ends in the wait-for cycle *)
+Theorem await_input_nd : forall fuel dest r w, pinv (rsp r) -> bytes_ok (remaining w) -> no_fault (wscript w) ->
+  inv2 r w [] -> (wl r w \/ poll_parses dest r = true) ->
+  match await_input maxc fuel dest r w with
+  | Ok (_, r') w' => inv2 r' w' [] /\ wl r' w'
+  | Halt o w' => o <> ODeadlock
+  end.
+Proof.
+  induction fuel as [|f IH]; intros dest r w Hinv Hrem Hnf HI HD; [cbn [await_input]; discriminate|].
+  cbn [await_input].
+  destruct (poll_input maxc (io_fuel w (len (buffer (rsp r)))) dest r w) as [[p r1] w1] eqn:EP.
+  assert (Hfu : (length (wscript w) + length (remaining w) + 2 <= io_fuel w (len (buffer (rsp r))))%nat)
+    by (rewrite io_fuel_remaining; lia).
+  destruct (poll_input_reads maxc _ dest r w p r1 w1 Hinv Hrem Hfu EP) as (dl & A & C & _).
+  destruct (poll_input_nd _ dest r w p r1 w1 Hinv Hrem Hnf Hfu EP HI HD) as (NB & I1 & WL1).
+  assert (RETRY : forall w1', remaining w1' = remaining w1 -> wlog w1' = wlog w1 -> segs w1' = segs w1 ->
+            wscript w1' = wscript w1 -> poll_parses dest r1 = true ->
+            match await_input maxc f dest r1 w1' with
+            | Ok (_, r') w' => inv2 r' w' [] /\ wl r' w'
+            | Halt o w' => o <> ODeadlock
+            end).
+  { intros w1' Q1 Q2 Q3 Q4 Hpp. apply IH.
+    - apply (ac_inv _ _ _ _ _ _ _ A).
+    - rewrite Q1. apply (acct_bytes_ok _ _ _ _ _ _ _ A Hrem).
+    - rewrite Q4. apply (no_fault_suffix _ _ (ac_ws _ _ _ _ _ _ _ A) Hnf).
+    - unfold inv2 in *. rewrite Q2, Q3. exact I1.
+    - right. exact Hpp. }
+  destruct p as [x| |].
+  - split; [exact I1|apply WL1; exact I].
+  - unfold on_wake. cbn [andb]. apply RETRY; try reflexivity.
+    destruct C as (C1 & C2 & C3). destruct dest as [[|pc]|].
+    + rewrite poll_input_zero in EP. discriminate EP.
+    + unfold poll_parses. rewrite C3. reflexivity.
+    + unfold poll_parses. rewrite C3. reflexivity.
+  - exfalso. apply NB. reflexivity.
+Qed.
+
+(* what an await keeps, for the next operation *)
+Lemma await_input_keeps fuel dest r w x r' w' : pinv (rsp r) -> bytes_ok (remaining w) -> no_fault (wscript w) ->
+  await_input maxc fuel dest r w = Ok (x, r') w' ->
+  pinv (rsp r') /\ bytes_ok (remaining w') /\ no_fault (wscript w').
+Proof.
+  intros Hinv Hrem Hnf E. pose proof (await_input_reads maxc fuel dest r w Hinv Hrem) as H. rewrite E in H.
+  cbn [ai_post] in H. destruct H as (dl & A & _).
+  split; [apply (ac_inv _ _ _ _ _ _ _ A)|]. split; [apply (acct_bytes_ok _ _ _ _ _ _ _ A Hrem)|].
+  apply (no_fault_suffix _ _ (ac_ws _ _ _ _ _ _ _ A) Hnf).
+Qed.
+
+
+
+End Layers.
